@@ -1041,8 +1041,14 @@ func c09Sig(p *oracle.Prog, want, got string) string {
 			if first == "" {
 				first = sig
 			}
-			if !c09KF.IsKnown("C09", sig) && unknown == "" {
-				unknown = sig
+			if !c09KF.IsKnown("C09", sig) {
+				if unknown == "" {
+					unknown = sig
+				}
+			} else if c09Ctx != nil {
+				// a program is reported under ONE signature (its first failing site that is not listed): every other
+				// failing site that is a listed finding is recorded too, so that each listed finding that occurs is printed
+				c09Ctx.Violation(sig, fmt.Sprintf("site %s of program %s: compiled Go %q, interpreter %q", st[1], p.ID, w[st[1]], g[st[1]]), nil)
 			}
 		}
 	}
